@@ -288,7 +288,7 @@ type Violation struct {
 func (e *Env) Judge(p *Pred, o *Obs, cfg BuildCfg, extCause string) []Violation {
 	var vs []Violation
 	if c := o.Res.Crashed(); c != "" {
-		vs = append(vs, Violation{"crash", "crash " + crashSite(o.Res.Stderr, c), "grog crashed: " + c})
+		vs = append(vs, Violation{"crash", "crash " + crashSite(o.Res.Stderr+o.Res.Stdout, c), "grog crashed: " + c})
 		return vs
 	}
 	if o.Res.TimedOut {
